@@ -23,10 +23,14 @@ RULE = (
 ASSUMPTIONS = ["no symlinks; outputs inside the project directory"]
 
 
+QUICK_BUDGET = {"cases": 640, "deadline_s": 90, "case_timeout_s": 60, "floors": {"clean_runs": 600, "files_compared": 6000, "remove_events_checked": 600, "declined_checked": 60}}
+THOROUGH_FACTOR = 56  # thorough = the same workload with 56x the cases (floors scale along)
+
+
 def budget(tier):
-    if tier == "thorough":
-        return {"cases": 6000, "deadline_s": 600, "case_timeout_s": 120, "floors": {"clean_runs": 5800, "files_compared": 60000, "remove_events_checked": 6000, "declined_checked": 600}}
-    return {"cases": 640, "deadline_s": 90, "case_timeout_s": 60, "floors": {"clean_runs": 600, "files_compared": 6000, "remove_events_checked": 600, "declined_checked": 60}}
+    from ..core import scaled_budget
+
+    return scaled_budget(QUICK_BUDGET, tier, THOROUGH_FACTOR, noscale=())
 
 
 SPELL = ["rel", "dot", "updown", "abs", "absdot"]
